@@ -262,6 +262,11 @@ func (p *Prog) FuncsIn(pkgRelPrefix string) []*ssa.Function {
 
 func isTestdataOrMock(f *ssa.Function) bool {
 	pk := relPkg(funcPkgPath(f))
+	if pos := rootFunc(f).Pos(); pos.IsValid() && f.Prog != nil {
+		if fn := f.Prog.Fset.Position(pos).Filename; strings.HasSuffix(fn, "test_utils.go") || strings.HasSuffix(fn, "_testutils.go") {
+			return true
+		}
+	}
 	return strings.Contains(pk, "/test_utils") || strings.Contains(pk, "mock") || strings.Contains(pk, "/fake") || strings.HasPrefix(pk, "pkg/env-tests")
 }
 
